@@ -238,19 +238,11 @@ func (n *refNode) boot() {
 	n.inc++
 	n.resetQueued = false
 	log := c.log
-	d, err := dbft.New[refHash](
-		dbft.WithTimer[refHash](n.tm),
-		dbft.WithLogger[refHash](log),
-		dbft.WithTimePerBlock[refHash](func() time.Duration { return time.Duration(c.T) }),
-		dbft.WithGetKeyPair[refHash](func(pubs []dbft.PublicKey) (int, dbft.PrivateKey, dbft.PublicKey) {
-			for i := range pubs {
-				if n.pub.(*crypto.ECDSAPub).Equals(pubs[i]) {
-					return i, n.key, n.pub
-				}
-			}
-			return -1, nil, nil
-		}),
-		dbft.WithGetTx[refHash](func(h refHash) dbft.Transaction[refHash] {
+	// the instance is built by the repository's own constructor (consensus.New: the reference
+	// payload constructors, 5 s blocks, no extensions - what the bundled example uses); only the
+	// timer is replaced by the simulated one afterwards
+	d, err := consensus.New(log, n.key, n.pub,
+		func(h refHash) dbft.Transaction[refHash] {
 			for v := range n.inPool {
 				tx := consensus.Tx64(v)
 				if tx.Hash() == h {
@@ -258,8 +250,8 @@ func (n *refNode) boot() {
 				}
 			}
 			return nil
-		}),
-		dbft.WithGetVerified[refHash](func() []dbft.Transaction[refHash] {
+		},
+		func() []dbft.Transaction[refHash] {
 			ids := make([]uint64, 0, len(n.inPool))
 			for v := range n.inPool {
 				ids = append(ids, v)
@@ -274,32 +266,20 @@ func (n *refNode) boot() {
 				l = append(l, &tx)
 			}
 			return l
-		}),
-		dbft.WithBroadcast[refHash](n.broadcast),
-		dbft.WithProcessBlock[refHash](n.processBlock),
-		dbft.WithCurrentHeight[refHash](func() uint32 { return n.tip().idx }),
-		dbft.WithCurrentBlockHash[refHash](func() refHash { return n.tip().hash }),
-		dbft.WithGetValidators[refHash](func(...dbft.Transaction[refHash]) []dbft.PublicKey { return c.vals }),
-		dbft.WithNewBlockFromContext[refHash](func(ctx *dbft.Context[refHash]) dbft.Block[refHash] {
-			if ctx.TransactionHashes == nil {
-				return nil
-			}
-			return consensus.NewBlock(ctx.Timestamp, ctx.BlockIndex, ctx.PrevHash, ctx.Nonce, ctx.TransactionHashes)
-		}),
-		dbft.WithNewConsensusPayload[refHash](func(ctx *dbft.Context[refHash], t dbft.MessageType, msg any) dbft.ConsensusPayload[refHash] {
-			return consensus.NewConsensusPayload(t, ctx.BlockIndex, uint16(ctx.MyIndex), ctx.ViewNumber, msg)
-		}),
-		dbft.WithNewPrepareRequest[refHash](consensus.NewPrepareRequest),
-		dbft.WithNewPrepareResponse[refHash](consensus.NewPrepareResponse),
-		dbft.WithNewChangeView[refHash](consensus.NewChangeView),
-		dbft.WithNewCommit[refHash](consensus.NewCommit),
-		dbft.WithNewRecoveryMessage[refHash](func() dbft.RecoveryMessage[refHash] { return consensus.NewRecoveryMessage(nil) }),
-		dbft.WithNewRecoveryRequest[refHash](consensus.NewRecoveryRequest),
+		},
+		n.broadcast,
+		n.processBlock,
+		func() uint32 { return n.tip().idx },
+		func() refHash { return n.tip().hash },
+		func(...dbft.Transaction[refHash]) []dbft.PublicKey { return c.vals },
+		func(dbft.ConsensusPayload[refHash]) error { return nil },
 	)
 	if err != nil {
 		c.violate("harness_error", n.id, "dbft.New: "+err.Error())
 		return
 	}
+	d.Timer = n.tm                // the DBFT's own copy of the configuration ...
+	d.Context.Config.Timer = n.tm // ... and the one the Context points to (it takes proposal timestamps from it)
 	n.d = d
 	n.up = true
 	c.tracef("n%d boot (incarnation %d) at ledger height %d", n.id, n.inc, n.tip().idx)
@@ -346,16 +326,9 @@ func (n *refNode) broadcast(p dbft.ConsensusPayload[refHash]) {
 	case dbft.RecoveryMessageType:
 		c.st.ExNote["ref_RecoveryMessage"]++
 	}
+	// (every payload type goes through the reference codec, recovery messages included: until
+	// fix D16 the codec lost the preparation hash of a recovery message that carries the proposal)
 	var raw dbft.ConsensusPayload[refHash]
-	if p.Type() == dbft.RecoveryMessageType {
-		// The reference codec does not carry the preparation hash of a recovery message that
-		// includes the proposal and its decoder does not recompute it, so the responses inside
-		// cannot be rebuilt after a round trip (a codec fidelity matter, C19).  Recovery messages
-		// are therefore handed over in memory - they are immutable once built - like the
-		// repository's own example program does with every payload.
-		raw = p
-		c.st.ExNote["ref_recovery_message_handed_over_in_memory"]++
-	}
 	for _, m := range c.nodes {
 		if m.id == n.id {
 			continue
@@ -480,7 +453,8 @@ func RefRun(mode int) func(*Tape, bool) *RunResult {
 		default:
 			c.nVal = []int{4, 7, 5, 6}[t.Draw(SScen, 4)]
 		}
-		c.T = []int64{5, 3, 15}[t.Draw(SScen, 3)] * int64(time.Second)
+		c.T = 5 * int64(time.Second) // consensus.New fixes the block time
+		t.Draw(SScen, 3)
 		c.delta = []int64{20, 2, 100}[t.Draw(SScen, 3)] * int64(time.Millisecond)
 		c.heights = uint32(3 + t.Draw(SScen, 3))
 		c.txPer = 1 + int(t.Draw(SScen, 4))
